@@ -75,6 +75,21 @@ def famFaultOp (se : Sess) (fam : String) (kv : KV) (f : Fault) : Sess × String
       else
         let rs := Spec.step se.o se.s (.put c d)
         ({ se with m := rm.1, s := rs.1 }, "r=" ++ outStr false rm.2.1, "r=" ++ outStr false rs.2)
+  else if fam == "many" then
+    let bs := parseBlocks (KV.getD kv "b" "-")
+    let guard : Option Err := if se.m.closed then some .closed
+      else if se.m.api = .blockstore ∧ se.m.finalized then some .finalized else none
+    match guard with
+    | some e => (se, "r=" ++ errName e, "r=" ++ errName e)
+    | none =>
+      let rm := se.m.putManyF se.o bs (some f)
+      let fired := match rm.2.1 with | .err .other => true | _ => false
+      -- spec: the batch is acknowledged block by block; the ones before the failing block are stored
+      let rs := Spec.step se.o se.s (.putMany (bs.take rm.2.2.2))
+      if fired then ({ se with m := rm.1, s := rs.1 }, "r=other", "r=other")
+      else
+        let rs := Spec.step se.o se.s (.putMany bs)
+        ({ se with m := rm.1, s := rs.1 }, "r=" ++ outStr false rm.2.1, "r=" ++ outStr false rs.2)
   else
     let rm := se.m.finalizeF se.o (some f)
     let fired := match rm.2.1 with | .err .other => true | _ => false
@@ -86,7 +101,7 @@ def famFaultOp (se : Sess) (fam : String) (kv : KV) (f : Fault) : Sess × String
       ({ se with m := rm.1, s := rs.1 }, "r=" ++ outStr false rm.2.1, "r=" ++ outStr false rs.2)
 
 def famOp (se : Sess) (fam : String) (kv : KV) : Sess × String × String :=
-  if (fam == "put" || fam == "finalize") && (parseFault kv).isSome then
+  if (fam == "put" || fam == "finalize" || fam == "many") && (parseFault kv).isSome then
     famFaultOp se fam kv ((parseFault kv).getD ⟨0, 0⟩)
   else if fam == "file" then
     let spec := if se.s.finalized ∨ (se.s.api = .storage ∧ se.s.closed) then
